@@ -210,6 +210,109 @@ impl System for RangeSys {
 	}
 }
 
+// ---------------------------------------------------------------- long streams
+
+/// One long deterministic stream per configuration, fed in blocks of 256 candles (one transition each);
+/// the monitors run after every candle. Volume bursts (x100, closing on the high or on the low) arrive on
+/// every 64th candle and at irregular places in between, so that whatever an instance does every 2^k steps
+/// (rebasing a counter, refreshing a running sum) coincides with a value that dominates its window.
+#[derive(Clone)]
+struct LSt {
+	imp: Box<dyn IndInst>,
+	cfg: usize,
+	stream: u8,
+	hist: Vec<Candle>,
+	t: u32,
+}
+struct LongRangeSys {
+	name: String,
+	cfgs: Vec<Box<dyn IndCfg>>,
+	spans: Vec<usize>,
+	blocks: u32,
+}
+fn long_candle(stream: u8, t: u32, prev_close: f64) -> Candle {
+	const PHI: f64 = 0.618_033_988_749_894_9;
+	let burst = t % 64 == 0 || (t as f64 * PHI * 7.0).fract() < 0.02;
+	let mut c = if stream == 0 {
+		checks::indcheck::volatile_candle(t, prev_close)
+	} else {
+		let tri = |t: u32, p: u32| -> f64 {
+			let x = (t % p) as f64 / p as f64;
+			if x < 0.5 { 4.0 * x - 1.0 } else { 3.0 - 4.0 * x }
+		};
+		let amp = 1.0 + 6.0 * (tri(t, 113) + 1.0) / 2.0;
+		let cl = 100.0 + 0.003 * t as f64 + amp * tri(t, 17);
+		let o = prev_close;
+		Candle { open: o as V, high: (o.max(cl) + 0.25 * (t % 3) as f64) as V, low: (o.min(cl) - 0.25 * (t % 4) as f64) as V, close: cl as V, volume: (1 + (t * 5) % 7) as V }
+	};
+	if burst {
+		c.volume *= 100.0;
+		if (t / 64) % 2 == 0 {
+			c.close = c.high;
+		} else {
+			c.close = c.low;
+		}
+	}
+	c
+}
+impl System for LongRangeSys {
+	type State = LSt;
+	type Act = ();
+	fn name(&self) -> String {
+		self.name.clone()
+	}
+	fn inits(&self) -> Vec<(LSt, String)> {
+		let mut v = vec![];
+		for (i, c) in self.cfgs.iter().enumerate() {
+			for stream in [0u8, 1] {
+				let c0 = long_candle(stream, 0, if stream == 0 { 10.0 } else { 100.0 });
+				if let Ok(Ok(imp)) = catch(|| c.init(&c0)) {
+					v.push((LSt { imp, cfg: i, stream, hist: vec![c0], t: 1 }, format!("{} {} stream={}", c.const_name(), c.to_json().unwrap_or_default(), if stream == 0 { "volatile-with-volume-bursts" } else { "swelling-triangle-wave-with-volume-bursts" })));
+				}
+			}
+		}
+		v
+	}
+	fn actions(&self, s: &LSt, _: u32) -> Vec<((), u8)> {
+		if s.t < self.blocks * 256 { vec![((), 0)] } else { vec![] }
+	}
+	fn show_act(&self, _: &()) -> String {
+		"the next 256 candles of the stream".into()
+	}
+	fn step(&self, s: &LSt, _: &()) -> Step<LSt> {
+		let mut n = s.clone();
+		let cfg = &self.cfgs[s.cfg];
+		let name = cfg.const_name();
+		let span = self.spans[s.cfg];
+		let vid = if kinds_have_vidya(cfg.as_ref()) { "/with-vidya" } else { "" };
+		let mut exempt = false;
+		for _ in 0..256 {
+			let c = long_candle(n.stream, n.t, n.hist.last().unwrap().close as f64);
+			let r = match catch(|| n.imp.next(&c)) {
+				Ok(r) => r,
+				Err(_) => return Step::Prune,
+			};
+			n.hist.push(c);
+			if n.hist.len() > 2 * span + 8 {
+				n.hist.remove(0);
+			}
+			if let Err((what, d)) = monitor(name, cfg.as_ref(), &r.values().iter().map(|v| *v as f64).collect::<Vec<_>>(), &n.hist, span) {
+				if what == "exempt" {
+					exempt = true;
+				} else {
+					return Step::Violation(Failure::new(format!("{name}/{what}/long-stream{vid}"), format!("candle {} of the stream: {d}", n.t)));
+				}
+			}
+			n.t += 1;
+		}
+		if exempt {
+			Step::Exempt(n, "formula undefined (zero volume / zero variance)")
+		} else {
+			Step::Next(n)
+		}
+	}
+}
+
 fn window<'a>(h: &'a [Candle], n: usize) -> &'a [Candle] {
 	&h[h.len().saturating_sub(n)..]
 }
@@ -487,6 +590,9 @@ fn main() {
 			let sys = RangeSys { name: format!("{name}/regimes/{tag}"), cfgs: cfgs.iter().map(|c| c.boxed_clone()).collect(), spans: spans.clone(), alphabet: al, d1, d3: if thorough && few && !tag.starts_with("ulp-spreads") { 3 } else { 2 } };
 			h.go(&sys, &Limits::depth(20).wall_secs(600), true);
 		}
+		// long streams: 4 608 candles (70 144 in the thorough tier, beyond a 16-bit counter)
+		let sys = LongRangeSys { name: format!("{name}/long-stream"), cfgs: cfgs.iter().map(|c| c.boxed_clone()).collect(), spans: spans.clone(), blocks: if thorough { 274 } else { 18 } };
+		h.go(&sys, &Limits::depth(400).wall_secs(600), true);
 	}
 	if only.is_none() {
 		let vr: Vec<In> = alpha::v_round().into_iter().map(In::V).collect();
